@@ -213,30 +213,52 @@ fn request_stream(tier: Tier, seed: u64) -> (Vec<Request>, Vec<(&'static str, us
         }
     }
     parts.push(("token-language", v.len()));
-    let n0 = v.len();
-    generate(gspelled(), tier.pick(40_000, 800_000), mix(&[seed, 1]), &mut v, |c| Some(Request::Parse(spell(&c.tuple, &c.choices).assemble())));
-    generate(gfault(), tier.pick(20_000, 400_000), mix(&[seed, 2]), &mut v, |c| inject(&c).map(|f| Request::Parse(f.text)));
-    generate(gsoup(), tier.pick(20_000, 400_000), mix(&[seed, 3]), &mut v, |s| Some(Request::Parse(s)));
-    generate(gcorpus_mut(), tier.pick(20_000, 400_000), mix(&[seed, 4]), &mut v, |s| Some(Request::Parse(s)));
-    parts.push(("random-strings", v.len() - n0));
-    let n1 = v.len();
-    let ty = proptest::prop_oneof![
-        2 => gtype(),
-        3 => proptest::sample::select(KNOWN_TYPES).prop_map(str::to_string),
-        1 => proptest::sample::select(&["", "!", "T", "NuGet", "PYPI", "9p", "a b"][..]).prop_map(str::to_string),
-    ];
-    let fields = (
-        ty,
-        crate::buildprog::garg(),
-        crate::buildprog::garg(),
-        crate::buildprog::garg(),
-        crate::buildprog::garg(),
-        proptest::collection::vec((crate::buildprog::gkey_any(), proptest::prop_oneof![gtext(0), crate::buildprog::gck_text()]), 0..=3),
-    );
-    generate(fields, tier.pick(50_000, 1_000_000), mix(&[seed, 5]), &mut v, |(ty, name, ns, version, subpath, quals)| {
-        Some(Request::Build { ty, name, ns, version, subpath, quals })
+    // the random parts are generated in parallel, each from its own fixed seed, and concatenated
+    // in a fixed order: the stream is a function of (tier, seed) only
+    let chunks: usize = 8;
+    let gen_strings = |kind: usize, chunk: usize| -> Vec<Request> {
+        let mut out = Vec::new();
+        let s = mix(&[seed, kind as u64, chunk as u64]);
+        match kind {
+            0 => generate(gspelled(), tier.pick(40_000, 800_000) / chunks, s, &mut out, |c| Some(Request::Parse(spell(&c.tuple, &c.choices).assemble()))),
+            1 => generate(gfault(), tier.pick(20_000, 400_000) / chunks, s, &mut out, |c| inject(&c).map(|f| Request::Parse(f.text))),
+            2 => generate(gsoup(), tier.pick(20_000, 400_000) / chunks, s, &mut out, |s| Some(Request::Parse(s))),
+            3 => generate(gcorpus_mut(), tier.pick(20_000, 400_000) / chunks, s, &mut out, |s| Some(Request::Parse(s))),
+            _ => {
+                let ty = proptest::prop_oneof![
+                    2 => gtype(),
+                    3 => proptest::sample::select(KNOWN_TYPES).prop_map(str::to_string),
+                    1 => proptest::sample::select(&["", "!", "T", "NuGet", "PYPI", "9p", "a b"][..]).prop_map(str::to_string),
+                ];
+                let fields = (
+                    ty,
+                    crate::buildprog::garg(),
+                    crate::buildprog::garg(),
+                    crate::buildprog::garg(),
+                    crate::buildprog::garg(),
+                    proptest::collection::vec((crate::buildprog::gkey_any(), proptest::prop_oneof![gtext(0), crate::buildprog::gck_text()]), 0..=3),
+                );
+                generate(fields, tier.pick(50_000, 1_000_000) / chunks, s, &mut out, |(ty, name, ns, version, subpath, quals)| {
+                    Some(Request::Build { ty, name, ns, version, subpath, quals })
+                })
+            },
+        }
+        out
+    };
+    let jobs: Vec<(usize, usize)> = (0..5).flat_map(|k| (0..chunks).map(move |c| (k, c))).collect();
+    let results: Vec<Vec<Request>> = std::thread::scope(|scope| {
+        let hs: Vec<_> = jobs.iter().map(|(k, c)| { let g = &gen_strings; scope.spawn(move || g(*k, *c)) }).collect();
+        hs.into_iter().map(|h| h.join().unwrap_or_default()).collect()
     });
-    parts.push(("builder-inputs", v.len() - n1));
+    let n0 = v.len();
+    for ((k, _), r) in jobs.iter().zip(results) {
+        if *k == 4 && parts.len() == 1 {
+            parts.push(("random-strings", v.len() - n0));
+        }
+        v.extend(r);
+    }
+    let strings = parts.get(1).map(|p| p.1).unwrap_or(0);
+    parts.push(("builder-inputs", v.len() - n0 - strings));
     (v, parts)
 }
 
